@@ -397,6 +397,20 @@ var gmBig bool
 func gmLeaf(r *rng, s *sink) []byte {
 	t := gmTypes[r.intn(len(gmTypes))]
 	key := pick(r, gmOtherKeys)
+	if r.chance(1, 8) {
+		// any 7-bit bytes are a key, the boundaries included; a byte beyond is an error
+		kb := make([]byte, 4)
+		for i := range kb {
+			kb[i] = pick(r, []byte{0x00, 0x01, 0x20, '0', '9', 'A', 'Z', 'a', 'z', '_', 0x7e, 0x7f, 0x7f})
+		}
+		if r.chance(1, 6) {
+			kb[r.intn(4)] = pick(r, []byte{0x80, 0x81, 0xc3, 0xff})
+			s.count("gm.key.8bit")
+		} else {
+			s.count("gm.key.7bit_random")
+		}
+		key = string(kb)
+	}
 	size := t.w * (1 + r.intn(3))
 	if t.ch == 'c' {
 		size = 1 + r.intn(12)
@@ -415,7 +429,19 @@ func gmLeaf(r *rng, s *sink) []byte {
 		count = 2000 / size
 	}
 	if gmBig && r.chance(1, 150) {
-		// a payload around and beyond 64 KiB (size x repeat no longer fits 16 bits)
+		// a payload around and beyond 64 KiB (size x repeat no longer fits 16 bits); half of them
+		// string-typed (their values are cut out of the payload by offset)
+		if r.chance(1, 2) {
+			t = pick(r, []struct {
+				ch byte
+				w  int
+			}{{'c', 1}, {'F', 4}, {'G', 16}, {'U', 16}})
+			size = t.w
+			if t.ch == 'c' {
+				size = pick(r, []int{1, 2, 7, 200, 255})
+			}
+			s.count("gm.big_strings")
+		}
 		count = (65536+r.intn(9000)-3000)/size + 1
 		if count > 65535 {
 			count = 65535
@@ -683,7 +709,7 @@ func gmLoadCaptures(cfg *config) {
 
 func genGM(cfg *config, r *rng, i int, s *sink) string {
 	gmLoadCaptures(cfg)
-	gmBig = cfg.prop == "C06"
+	gmBig = cfg.prop == "C06" || cfg.prop == "C09"
 	stream := []string{"wf", "wf", "wf", "wf", "wf", "mut", "mut", "mutcap", "rand", "wf"}[i%10]
 	switch cfg.prop {
 	case "C09":
